@@ -8,6 +8,7 @@ import (
 	"bytes"
 	"encoding/json"
 	"fmt"
+	"io"
 	"strconv"
 	"strings"
 
@@ -143,16 +144,44 @@ func unmarshalJSON[T constraint.ParserInput](input T, r Rule) (Size, error) {
 		if err != nil {
 			return 0, newParseError(defaultParserFuncName, input, err)
 		}
+		// closing brace of the object (the reader above stops in front of it)
+		if _, err := d.Token(); err != nil {
+			if err == io.EOF {
+				err = io.ErrUnexpectedEOF
+			}
+			return 0, newParseError(defaultParserFuncName, input, err)
+		}
+		if err := expectEndOfInput(d); err != nil {
+			return 0, newParseError(defaultParserFuncName, input, err)
+		}
 		return size, nil
 	case json.Number:
+		if err := expectEndOfInput(d); err != nil {
+			return 0, newParseError(defaultParserFuncName, input, err)
+		}
 		return unmarshalText([]byte(v), 0)
 	case string:
 		if r&RuleEnableJSONStringForm == 0 {
 			return 0, newParseError(defaultParserFuncName, input, ErrStringFormDisabled)
 		}
+		if err := expectEndOfInput(d); err != nil {
+			return 0, newParseError(defaultParserFuncName, input, err)
+		}
 		return unmarshalText([]byte(v), 0)
 	default:
 		return 0, newParseError(defaultParserFuncName, input, fmt.Errorf("%w: expected json.Delim, json.Number or string instead of %T", ErrInvalidType, t))
+	}
+}
+
+// expectEndOfInput checks that the JSON value read so far is the only one in input.
+func expectEndOfInput(d decoder) error {
+	switch _, err := d.Token(); err {
+	case io.EOF:
+		return nil
+	case nil:
+		return ErrUnexpectedData
+	default:
+		return err
 	}
 }
 
